@@ -13,7 +13,7 @@ TRUSTED_BASE = [
 PROPS = {
     "C02": {
         "coq": "Properties/C02.v",
-        "pinchecks": ["PinChecks/PcEffector.v", "PinChecks/PcEffectorGen.v"] + ["PinChecks/PcBody_enf.v", "PinChecks/PcEnforceGen.v", "PinChecks/PcBody_fmacros.v"],
+        "pinchecks": ["PinChecks/PcEffector.v", "PinChecks/PcEffectorGen.v"] + ["PinChecks/PcBody_enf.v", "PinChecks/PcEnforceGen.v", "PinChecks/PcEnforcerGen.v", "PinChecks/PcBody_fmacros.v"],
         "gen": "c02",
         "level_text": "Coq theorems (c02_result, c02_early_final, c02_cap_complete, c02_next_readable, c02_forced_*) prove for every "
                       "effect rule and every finite sequence (unbounded length) that the streaming combiner equals the declarative "
@@ -56,7 +56,7 @@ PROPS = {
     "C01": {
         "coq": "Properties/C01.v",
         "coq_extra": ["Properties/C16e.v"],
-        "pinchecks": ["PinChecks/PcBody_enf.v", "PinChecks/PcEnforceGen.v", "PinChecks/PcLiterals.v", "PinChecks/PcBody_fmacros.v", "PinChecks/PcEffector.v", "PinChecks/PcEffectorGen.v",
+        "pinchecks": ["PinChecks/PcBody_enf.v", "PinChecks/PcEnforceGen.v", "PinChecks/PcEnforcerGen.v", "PinChecks/PcLiterals.v", "PinChecks/PcBody_fmacros.v", "PinChecks/PcEffector.v", "PinChecks/PcEffectorGen.v",
                       "PinChecks/PcBody_fconvert.v", "PinChecks/PcBody_util.v", "PinChecks/PcStrFnGen.v"] + ["PinChecks/PcBody_model.v", "PinChecks/PcStoreGen.v", "PinChecks/PcLinksGen.v", "PinChecks/PcRoleGraph.v"],
         "gen": "c01",
         "level_text": "Coq theorem c01_enforce_is_perm: for EVERY model store, matcher AST, function table, request (any arity/types), "
@@ -79,7 +79,7 @@ PROPS = {
     },
     "C17": {
         "coq": "Properties/C17.v",
-        "pinchecks": ["PinChecks/PcBody_enf.v", "PinChecks/PcEnforceGen.v", "PinChecks/PcLiterals.v"],
+        "pinchecks": ["PinChecks/PcBody_enf.v", "PinChecks/PcEnforceGen.v", "PinChecks/PcEnforcerGen.v", "PinChecks/PcLiterals.v"],
         "gen": "c17",
         "level_text": "Coq theorem c17_ctx_eq_plain: for every suffix, every model whose suffixed r/p/e/m definitions are renamed copies "
                       "(same rules under the suffixed policy type), every function state and every request, the context-qualified loop equals "
@@ -94,7 +94,7 @@ PROPS = {
 }
 
 
-ENGINE_PINS = ["PinChecks/PcBody_enf.v", "PinChecks/PcEnforceGen.v", "PinChecks/PcBody_model.v", "PinChecks/PcStoreGen.v", "PinChecks/PcLinksGen.v", "PinChecks/PcInternalGen.v", "PinChecks/PcBody_adapters.v", "PinChecks/PcBody_fmgmtapi.v", "PinChecks/PcApiGen.v", "PinChecks/PcBody_frbacapi.v", "PinChecks/PcRoleGraph.v", "PinChecks/PcLiterals.v", "PinChecks/PcBody_fmacros.v"]
+ENGINE_PINS = ["PinChecks/PcBody_enf.v", "PinChecks/PcEnforceGen.v", "PinChecks/PcEnforcerGen.v", "PinChecks/PcBody_model.v", "PinChecks/PcStoreGen.v", "PinChecks/PcLinksGen.v", "PinChecks/PcInternalGen.v", "PinChecks/PcBody_adapters.v", "PinChecks/PcBody_fmgmtapi.v", "PinChecks/PcApiGen.v", "PinChecks/PcBody_frbacapi.v", "PinChecks/PcRoleGraph.v", "PinChecks/PcLiterals.v", "PinChecks/PcBody_fmacros.v"]
 ENGINE_NOTE = ("trusted: Coq kernel, extraction, harness; modelled not verified: hashlink LinkedHashSet/LinkedHashMap order (insert moves an existing entry "
                "to the back), petgraph adjacency order, rhai on the matcher fragment; adapters are modelled at the level of parsed lines (the CSV text level is "
                "C16/C09-text); every modelled function body is pinned by hash to the source it was aligned with")
@@ -102,7 +102,7 @@ ENGINE_NOTE = ("trusted: Coq kernel, extraction, harness; modelled not verified:
 PROPS.update({
     "C06": {
         "coq": "Properties/C06.v",
-        "pinchecks": ["PinChecks/PcBody_enf.v", "PinChecks/PcEnforceGen.v", "PinChecks/PcBody_fmap.v", "PinChecks/PcStrFnGen.v", "PinChecks/PcLiterals.v", "PinChecks/PcEffector.v", "PinChecks/PcEffectorGen.v", "PinChecks/PcBody_fconvert.v",
+        "pinchecks": ["PinChecks/PcBody_enf.v", "PinChecks/PcEnforceGen.v", "PinChecks/PcEnforcerGen.v", "PinChecks/PcBody_fmap.v", "PinChecks/PcStrFnGen.v", "PinChecks/PcLiterals.v", "PinChecks/PcEffector.v", "PinChecks/PcEffectorGen.v", "PinChecks/PcBody_fconvert.v",
                       "PinChecks/PcBody_fmacros.v", "PinChecks/PcRoleGraph.v"] + ["PinChecks/PcBody_ferror.v"],
         "gen": "c06",
         "partial": "never-hang / never-panic of the regex crate and of rhai is NOT a theorem: it is watchdog + catch_unwind evidence from the differential run; "
@@ -314,7 +314,7 @@ PROPS.update({
 PROPS.update({
     "C20": {
         "coq": "Properties/C20.v",
-        "pinchecks": ["PinChecks/PcLocks.v", "PinChecks/PcBody_fmacros.v", "PinChecks/PcBody_frbacapi.v", "PinChecks/PcBody_enf.v", "PinChecks/PcEnforceGen.v", "PinChecks/PcBody_fcachedenforcer.v", "PinChecks/PcCachedGen.v"] + ["PinChecks/PcBody_fdefaultcache.v", "PinChecks/PcCached.v", "PinChecks/PcRoleGraph.v"],
+        "pinchecks": ["PinChecks/PcLocks.v", "PinChecks/PcBody_fmacros.v", "PinChecks/PcBody_frbacapi.v", "PinChecks/PcBody_enf.v", "PinChecks/PcEnforceGen.v", "PinChecks/PcEnforcerGen.v", "PinChecks/PcBody_fcachedenforcer.v", "PinChecks/PcCachedGen.v"] + ["PinChecks/PcBody_fdefaultcache.v", "PinChecks/PcCached.v", "PinChecks/PcRoleGraph.v"],
         "gen": "c20",
         "partial": "PARTIAL by nature: the theorems are about an abstract small-step semantics of two writer-preferring, non-re-entrant read-write locks and the "
                    "thread programs the code follows; that rustc / parking_lot / mini-moka / rhai implement those semantics (memory model, fairness, Send/Sync "
